@@ -677,6 +677,25 @@ def run_check(prop_id, tier="quick", seed=0, replay=None):
                     c2 = dict(c, cls=c["cls"] + "@" + kind)
                     disagreements.append((c2, ir1, ("ok", ir0[1]) if ir0[0] == "ok" else ("err", ir0[1])))
             stats["extra"][kind + "_variants"] = nv
+        # ... and with ONE caller-owned buffer / list per argument position, refilled in place before every call:
+        # whatever the library remembered about the object itself (identity- or reference-keyed caches) is stale by the
+        # next call, and an argument the call modifies in place shows up as well.  Buffers: ops of BYTEARRAY_OPS;
+        # lists: every op that takes a list, except those a property lists in NO_REUSELIST_OPS
+        for kind, pick in (("reuse", lambda c: c["op"] in set(getattr(prop, "BYTEARRAY_OPS", ()))
+                            and any(isinstance(a, bytes) for a in c["args"])),
+                           ("reuselist", lambda c: c["op"] not in set(getattr(prop, "NO_REUSELIST_OPS", ()))
+                            and any(isinstance(a, list) for a in c["args"]))):
+            nv = 0
+            for (c, ir0) in [x for x in sample if pick(x[0])][:150]:
+                ir1 = impl.call(c["op"] + "@" + kind, c["args"], timeout=c.get("timeout"))
+                if canon and ir1[0] == "ok":
+                    ir1 = ("ok", canon(c, ir1[1]))
+                nv += 1
+                same = (ir0[0] == ir1[0]) and (norm(ir0[1]) == norm(ir1[1]) if ir0[0] == "ok" else True)
+                if not same:
+                    c2 = dict(c, cls=c["cls"] + "@" + kind)
+                    disagreements.append((c2, ir1, ("ok", ir0[1]) if ir0[0] == "ok" else ("err", ir0[1])))
+            stats["extra"][kind + "_variants"] = nv
 
     # ---- search: turn disagreements into failing inputs of the property ----
     shrink = getattr(prop, "shrink", None)
